@@ -736,3 +736,19 @@ Proof.
   intros H c Hc. rewrite forallb_forall in H. apply H. unfold octets256.
   rewrite <- (N2Nat.id c). apply in_map. apply in_seq. lia.
 Qed.
+
+Lemma runsN_bind_l {A B} n (T1 T2 : bytes -> Prop) (m : M A) (f : A -> M B) s1 s2 b b1 b2 v1 v2 :
+  runsN n T1 m s1 b b1 v1 -> (forall t, T2 t -> T1 (s2 ++ t)) -> runs T2 (f v1) s2 b1 b2 v2 ->
+  runsN n T2 (bindM m f) (s1 ++ s2) b b2 v2.
+Proof.
+  intros H1 HT H2 r t E P W L Ht. rewrite <- app_assoc in E.
+  destruct (H1 r (s2 ++ t) E P W L (HT t Ht)) as (r1 & E1 & P1).
+  pose proof (post_wfr _ _ _ _ _ W E P1) as W1.
+  destruct P1 as (A1 & A2 & A3 & A4).
+  destruct (H2 r1 t A1 A2 W1 Ht) as (r2 & E2 & P2).
+  exists r2. unfold bindM. rewrite E1. split; [exact E2|].
+  eapply post_trans; [|exact P2]. unfold post. auto.
+Qed.
+
+Lemma runsN_app_nil {A} n (T : bytes -> Prop) (m : M A) s b b' v : runsN n T m (s ++ []) b b' v -> runsN n T m s b b' v.
+Proof. rewrite app_nil_r. auto. Qed.
